@@ -963,6 +963,9 @@ func (t *fnTrans) block(b *ssa.BasicBlock) {
 			for _, cl := range t.ct.LoopInv[li.ordinal] {
 				t.assume(env.evalBool(cl.Expr))
 			}
+			if ri, ok := vars["rangeindex"]; ok {
+				t.assume(and(le("(- 1)", ri.C[0]), le(ri.C[0], maxLenStr)))
+			}
 			if d := t.ct.LoopDec[li.ordinal]; d != nil {
 				li.variant = env.eval(d.Expr).C[0]
 			}
@@ -1003,6 +1006,10 @@ func (t *fnTrans) checkInvariant(li *loopInfo, st *State, vars map[string]Val, g
 	env := t.specEnv(st, t.entry)
 	for k, v := range vars {
 		env.vars[k] = v
+	}
+	if ri, ok := vars["rangeindex"]; ok {
+		// implicit invariant of every range-over-slice loop
+		t.obligG(kind, at, fmt.Sprintf("loop%d.rangeindex", li.ordinal), guard, and(le("(- 1)", ri.C[0]), le(ri.C[0], maxLenStr)), "implicit: -1 <= rangeindex <= 2^56")
 	}
 	for i, cl := range t.ct.LoopInv[li.ordinal] {
 		label := cl.Label
